@@ -116,4 +116,5 @@ pub mod verif {
     pub use crate::paged_reader::PagedReader;
     pub use crate::paged_writer::PagedWriter;
     pub use crate::queue_reader::QueueReader;
+    pub use crate::verif_trace::work_total;
 }
